@@ -21,6 +21,7 @@ import (
 	"github.com/elnosh/gonuts/crypto"
 	"github.com/elnosh/gonuts/mint/lightning"
 	"github.com/elnosh/gonuts/mint/pubsub"
+	"github.com/elnosh/gonuts/mint/storage"
 	"github.com/elnosh/gonuts/mint/storage/sqlite"
 	v "github.com/elnosh/gonuts/verifrt"
 	"github.com/lightningnetwork/lnd/lnwire"
@@ -62,6 +63,7 @@ type vhLN struct {
 
 func (l *vhLN) ConnectionStatus() error { return nil }
 func (l *vhLN) CreateInvoice(amount uint64) (lightning.Invoice, error) {
+	v.Yield("Client.CreateInvoice")
 	if v.Int("ln.create.err", 0, 1) == 1 {
 		return lightning.Invoice{}, errors.New("scripted backend: cannot create invoice")
 	}
@@ -70,6 +72,7 @@ func (l *vhLN) CreateInvoice(amount uint64) (lightning.Invoice, error) {
 		Amount: amount, Expiry: 3600}, nil
 }
 func (l *vhLN) InvoiceStatus(hash string) (lightning.Invoice, error) {
+	v.Yield("Client.InvoiceStatus")
 	l.InvoiceQ++
 	if v.Int("ln.invoice.err", 0, 1) == 1 {
 		return lightning.Invoice{}, errors.New("scripted backend: invoice lookup failed")
@@ -88,6 +91,14 @@ func (l *vhLN) answer(kind string) (lightning.PaymentStatus, error) {
 	}
 	a.ErrKind = v.Int("ln."+kind+".err", 0, nerr)
 	a.Preimage = v.Str("ln." + kind + ".preimage")
+	// contract of a backend: final outcomes are final (no definitive failure after a reported success and vice versa)
+	okNow := v.And(a.Status == lightning.Succeeded, a.ErrKind == 0)
+	failNow := false
+	if kind == "status" {
+		failNow = v.Or(v.And(a.Status == lightning.Failed, a.ErrKind == 0), a.ErrKind == 2)
+	}
+	v.Assume(v.Not(v.And(l.anySucceeded(), failNow)))
+	v.Assume(v.Not(v.And(l.definitiveFailure(), okNow)))
 	l.Answers = append(l.Answers, a)
 	ps := lightning.PaymentStatus{Preimage: a.Preimage, PaymentStatus: a.Status}
 	switch a.ErrKind {
@@ -99,25 +110,30 @@ func (l *vhLN) answer(kind string) (lightning.PaymentStatus, error) {
 	return ps, nil
 }
 func (l *vhLN) SendPayment(ctx context.Context, request string, maxFee uint64) (lightning.PaymentStatus, error) {
+	v.Yield("Client.SendPayment")
 	l.Pays = append(l.Pays, vhPay{Request: request, MaxFee: maxFee})
 	return l.answer("pay")
 }
 func (l *vhLN) PayPartialAmount(ctx context.Context, request string, amountMsat uint64, maxFee uint64) (lightning.PaymentStatus, error) {
+	v.Yield("Client.PayPartialAmount")
 	l.Pays = append(l.Pays, vhPay{Request: request, AmountMsat: amountMsat, MaxFee: maxFee, Partial: true})
 	return l.answer("pay")
 }
 func (l *vhLN) OutgoingPaymentStatus(ctx context.Context, hash string) (lightning.PaymentStatus, error) {
+	v.Yield("Client.OutgoingPaymentStatus")
 	l.StatusQ++
 	return l.answer("status")
 }
 
 // FeeReserve: an arbitrary but deterministic function of the amount (uninterpreted function), recorded
 func (l *vhLN) FeeReserve(amount uint64) uint64 {
+	v.Yield("Client.FeeReserve")
 	r := v.UF64("ln.feereserve", amount)
 	l.FeeQ = append(l.FeeQ, vhFeeQ{Amount: amount, Reserve: r})
 	return r
 }
 func (l *vhLN) SubscribeInvoice(ctx context.Context, paymentHash string) (lightning.InvoiceSubscriptionClient, error) {
+	v.Yield("Client.SubscribeInvoice")
 	return &vhSub{hash: paymentHash}, nil
 }
 
@@ -193,7 +209,11 @@ func (env *vhEnv) restart() *Mint {
 	m := &Mint{db: env.db, keysets: env.m.keysets, activeKeyset: env.m.activeKeyset, lightningClient: env.ln,
 		publisher: pubsub.NewPubSub(), limits: env.m.limits, mppEnabled: env.m.mppEnabled, logger: env.m.logger}
 	m.ctx, m.cancel = context.WithCancel(context.Background())
+	hooked := env.m.db != storage.MintDB(env.db)
 	env.m = m
+	if hooked {
+		env.hook()
+	}
 	return m
 }
 
